@@ -11,6 +11,22 @@ let int_of_n = function N0 -> 0 | Npos p -> int_of_pos p
 let rec nat_of_int (i : int) : nat = if i <= 0 then O else S (nat_of_int (i - 1))
 let rec int_of_nat = function O -> 0 | S n -> 1 + int_of_nat n
 
+let z_of_int (i : int) : z = if i = 0 then Z0 else if i > 0 then Zpos (pos_of_int i) else Zneg (pos_of_int (-i))
+let int_of_z = function Z0 -> 0 | Zpos p -> int_of_pos p | Zneg p -> - (int_of_pos p)
+let show_seg = function
+  | Move (dx, dy) -> Printf.sprintf "M%d:%d" (int_of_z dx) (int_of_z dy)
+  | Hor d -> Printf.sprintf "H%d" (int_of_z d)
+  | Ver d -> Printf.sprintf "V%d" (int_of_z d)
+  | Close -> "Z"
+
+let parse_seg t = match t.[0] with
+  | 'H' -> Hor (z_of_int (int_of_string (String.sub t 1 (String.length t - 1))))
+  | 'V' -> Ver (z_of_int (int_of_string (String.sub t 1 (String.length t - 1))))
+  | 'Z' -> Close
+  | 'M' -> (match String.split_on_char ':' (String.sub t 1 (String.length t - 1)) with
+            | [a; b] -> Move (z_of_int (int_of_string a), z_of_int (int_of_string b)) | _ -> failwith "bad move")
+  | _ -> failwith "bad segment"
+
 let ints (s : string) : int list =
   if s = "-" then [] else List.map int_of_string (String.split_on_char ',' s)
 let nlist s = List.map n_of_int (ints s)
@@ -87,6 +103,25 @@ let dispatch (op : string) (a : string array) : string =
   | "bitmap" -> show_out (fun ((w, h), bits) -> Printf.sprintf "%d %d %s" (int_of_n w) (int_of_n h) (show_bools bits))
                   (d_bitmap (sym_of (int_of_string a.(0))) (bools a.(1)))
   | "bitmap_tag" -> let (w, bits) = d_bitmap_tag (sym_of (int_of_string a.(0))) in Printf.sprintf "ok %d %s" (int_of_n w) (shown bits)
+  | "path" | "path_raw" ->
+    let w = z_of_int (int_of_string a.(0)) in
+    let bits = bools a.(1) in
+    let showp l = if l = [] then "-" else String.concat "," (List.map show_seg l) in
+    (match d_path w bits with
+     | Ok l ->
+       if op = "path_raw" || Array.length a < 3 then "ok path=" ^ showp l
+       else
+         let segs = if a.(2) = "-" then [] else List.map parse_seg (String.split_on_char ',' a.(2)) in
+         (match d_path_check w bits segs with
+          | Ok b -> Printf.sprintf "ok path=%s check=%d" (showp l) (b2i b)
+          | _ -> "panic")
+     | _ -> "panic")
+  | "path_check" ->
+    let segs = if a.(2) = "-" then [] else List.map parse_seg (String.split_on_char ',' a.(2)) in
+    show_out (fun b -> string_of_int (b2i b)) (d_path_check (z_of_int (int_of_string a.(0))) (bools a.(1)) segs)
+  | "pixels" -> show_out (fun l -> if l = [] then "-" else String.concat "," (List.map (fun (x, y) -> Printf.sprintf "%d:%d" (int_of_z x) (int_of_z y)) l))
+                  (d_pixels (z_of_int (int_of_string a.(0))) (bools a.(1)))
+  | "unicode" -> show_out (fun l -> show (List.map int_of_z l)) (d_unicode (z_of_int (int_of_string a.(0))) (bools a.(1)))
   | "from_bits" -> show_conv (d_from_bits (n_of_int (int_of_string a.(0))) (bools a.(1)))
   | "from_bits_flip" -> show_conv (d_from_bits_flip (sym_of (int_of_string a.(0))) (bools a.(1)) (n_of_int (int_of_string a.(2))))
   | "plan" ->
